@@ -29,7 +29,7 @@ def gates(tier):
             'wrong_msg_applicable': 300, 'wrong_msg_not_applicable': 600, 'list_entry_checks': 300,
             'class:StringGrader': 200, 'class:NumericalGrader': 150, 'class:FormulaGrader': 150,
             'class:MatrixGrader': 100, 'class:SingleListGrader': 100, 'author_comparer_calls': 1500,
-            'credit_scaling_checks': 1500, 'message_origin_checks': 3000}
+            'credit_scaling_checks': 1500, 'message_origin_checks': 3000, 'interval_calls': 4000}
 
 
 def specs(rng):
@@ -289,7 +289,103 @@ def run_author_comparer(ctx):
                           {'grader': cls.__name__})
 
 
+def run_interval(ctx):
+    """
+    IntervalGrader: alternatives at three levels (whole intervals, each number, each bracket).  Model written from
+    docs/grading_math/interval_grader.md: half = number credit x best matching bracket credit (0 when the bracket
+    matches nothing); interval = mean of the halves (all-or-nothing without partial_credit) x the interval's credit;
+    the student receives the best interval alternative; listing order of alternatives is irrelevant.
+    """
+    from mitxgraders import IntervalGrader
+    rng = ctx.rng
+    NUMS = {'1': 1.0, '2': 2.0, '0': 0.0, '3': 3.0, '1.0': 1.0, '4/2': 2.0, '2.5': 2.5}
+
+    def number_alts(correct):
+        alts = [{'expect': correct, 'grade_decimal': 1, 'msg': ''}]
+        for _ in range(rng.randint(0, 2)):
+            alts.append({'expect': rng.choice(['0', '3', '2.5']), 'grade_decimal': rng.choice([0, 0.5, 0.8]), 'msg': rng.choice(['', 'numhint'])})
+        return alts
+
+    def bracket_alts(chars):
+        first = rng.choice(chars)
+        alts = [{'expect': first, 'grade_decimal': rng.choice([1, 1, 0.9]), 'msg': ''}]
+        others = [c for c in chars if c != first]
+        if others and rng.random() < 0.7:
+            alts.append({'expect': others[0], 'grade_decimal': rng.choice([0, 0.5, 0.5, 1]), 'msg': rng.choice(['', 'bracket hint', 'b'])})
+        if rng.random() < 0.3:
+            # the same character listed twice with different credit: the better one counts
+            alts.append({'expect': first, 'grade_decimal': rng.choice([0.2, 1]), 'msg': rng.choice(['', 'dup'])})
+        return alts
+
+    def credit_of(alts, pred):
+        c = [a['grade_decimal'] for a in alts if pred(a['expect'])]
+        return max(c) if c else None
+
+    for i in range(ctx.n(1600, 20000)):
+        partial_credit = rng.random() < 0.7
+        intervals = []
+        for _ in range(rng.choice([1, 1, 2])):
+            intervals.append({'open': bracket_alts('[('), 'lo': number_alts(rng.choice(['1', '0'])), 'hi': number_alts(rng.choice(['2', '3'])),
+                              'close': bracket_alts('])'), 'grade_decimal': rng.choice([1, 1, 0.5]), 'msg': rng.choice(['', 'interval msg'])})
+
+        def build(order_seed):
+            r2 = __import__('random').Random(order_seed)
+            alist = []
+            for iv in intervals:
+                parts = []
+                for k in ('open', 'lo', 'hi', 'close'):
+                    alts = [dict(a) for a in iv[k]]
+                    r2.shuffle(alts)
+                    parts.append(tuple(alts))
+                alist.append({'expect': parts, 'grade_decimal': iv['grade_decimal'], 'msg': iv['msg']})
+            r2.shuffle(alist)
+            return IntervalGrader(answers=tuple(alist), partial_credit=partial_credit)
+        try:
+            graders = [build(k) for k in range(4)]
+        except Exception as exc:  # noqa
+            ctx.count('interval_spec_rejected')
+            continue
+        for _ in range(3):
+            so, sc = rng.choice('[('), rng.choice('])')
+            slo, shi = rng.choice(list(NUMS)), rng.choice(list(NUMS))
+            inp = '%s%s, %s%s' % (so, slo, shi, sc)
+            best = 0.0
+            for iv in intervals:
+                halves = []
+                for num_alts, s_num, br_alts, s_br in ((iv['lo'], slo, iv['open'], so), (iv['hi'], shi, iv['close'], sc)):
+                    nc = credit_of(num_alts, lambda e: NUMS[e] == NUMS[s_num]) or 0
+                    bc = credit_of(br_alts, lambda e: e == s_br)
+                    halves.append(nc * (bc if bc is not None else 0) if nc else 0)
+                tot = (sum(halves) / 2.0) if partial_credit else (1.0 if all(abs(h - 1) < 1e-12 for h in halves) else 0.0)
+                best = max(best, tot * iv['grade_decimal'])
+            legal = set(['interval msg', 'numhint', 'bracket hint', 'b', 'dup', ''])
+            seen = set()
+            for k, g in enumerate(graders):
+                out = lib.call(ctx, g, None, inp)
+                ctx.ev()
+                ctx.count('full_grader_calls')
+                ctx.count('interval_calls')
+                wit = {'grader': 'IntervalGrader', 'partial_credit': partial_credit, 'intervals': intervals, 'input': inp,
+                       'listing_order_seed': k, 'outcome': out.brief()}
+                if not out.returned:
+                    ctx.violation('C08:interval:raises', repr(out.exc), wit)
+                    break
+                if abs(out.value['grade_decimal'] - best) > 1e-9:
+                    ctx.violation('C08:interval:grade_not_maximal', 'grade %r, the documented rule gives %r' % (out.value['grade_decimal'], best), wit)
+                    break
+                lines = out.value['msg'].replace('<br/>', '').split('\n')
+                if any(l not in legal for l in lines):
+                    ctx.violation('C08:interval:message_of_foreign_origin', 'message %r' % (out.value['msg'],), wit)
+                    break
+                seen.add(round(out.value['grade_decimal'], 9))
+            if len(seen) > 1:
+                ctx.violation('C08:interval:order_dependent', 'grades over listing orders: %r' % sorted(seen), wit)
+            if best not in (0.0, 1.0):
+                ctx.nontrivial(['interval', intervals, inp, partial_credit])
+
+
 def run(ctx):
     run_item(ctx)
     run_lists(ctx)
     run_author_comparer(ctx)
+    run_interval(ctx)
